@@ -338,6 +338,8 @@ def check_single_variants(s, pos, res):
 # (b) spec spellings
 
 ARGSPECS = [''.join(t) for l in range(0, 5) for t in itertools.product('*[{', repeat=l)]
+SUFFIXES = ['{}tail', '', ' ', 'x', '\n\nz', '}']
+SUFFIXES_ENV = [' body', '', 'body', '\n\nz']
 
 
 def spellings(name, argspec, env=False):
@@ -416,15 +418,26 @@ def check_spellings(argspec, res, env=False):
         from pylatexenc.macrospec import MacroSpec, EnvironmentSpec
         db.set_unknown_macro_spec(MacroSpec(''))
         db.set_unknown_environment_spec(EnvironmentSpec(''))
-        for pattern, ws, call in call_strings(argspec):
-            src = ('\\begin{%s}%s body\\end{%s} tail' % (name, call, name)) if env else \
-                ('\\%s%s{}tail' % (name, call))
+        for pattern0, ws, call, sfx in [(p_, w_, c_, x_) for p_, w_, c_ in call_strings(argspec)
+                                        for x_ in (SUFFIXES_ENV if env else SUFFIXES)]:
+            # what follows a complete call: another group, end of input, a blank, a letter, a
+            # paragraph break, the closing brace of an enclosing group
+            pattern = pattern0 + (sfx,)
+            if env:
+                src = '\\begin{%s}%s%s\\end{%s} tail' % (name, call, sfx, name)
+            elif sfx == '}':
+                src = '{\\%s%s}tail' % (name, call)
+            else:
+                src = '\\%s%s%s' % (name, call, sfx)
             res.case()
 
             def run():
                 w = LatexWalker(src, latex_context=db, tolerant_parsing=False)
                 nl, _ = w.parse_content(LatexGeneralNodesParser())
                 node = nl[0]
+                if sfx == '}' and not env:
+                    nl = node.nodelist
+                    node = nl[0]
                 d = norm(dump(node, state=False))
                 argd = d.get('args') or {}
                 views = None
@@ -445,6 +458,8 @@ def check_spellings(argspec, res, env=False):
             if r[0] != 'ok' or r[1]['views'] is None or r[1]['argnlist'] is None:
                 continue
             argn = r[1]['argnlist']
+            if len(argn) != len(argspec):
+                continue        # reported by the comparison below
             want = None
             if core[:1] == '[' and all(c == '{' for c in core[1:]):
                 want = [argn[k], argn[k + 1:]]
@@ -479,10 +494,73 @@ def check_spellings(argspec, res, env=False):
         res.nontriv_distinct(len(results))
 
 
+LEGACY_STATE_DOCS = ['\\begin{zzenv}{a}x^2 \\textbf{b}\\end{zzenv} y $z$',
+                     '\\begin{zzenv}{a}\\end{zzenv}', 'p \\begin{zzenv}{a}{q}$\\end{zzenv}',
+                     'a \\zzsw b {c} \\textbf{d}', '{\\zzsw x} y', '\\zzsw']
+
+
+def check_legacy_states(res):
+    """a pylatexenc-2 style arguments parser may return a fourth element naming the parsing state
+    of what follows ('new_parsing_state') or of the environment body ('inner_parsing_state');
+    the pylatexenc-3 equivalents are the parsing-state deltas of the specification.  Same trees,
+    including the math-mode flag of every node."""
+    from pylatexenc.macrospec import (MacroSpec, EnvironmentSpec, MacroStandardArgsParser,
+                                      LatexContextDb)
+    from pylatexenc.latexnodes import (ParsingStateDeltaEnterMathMode)
+    from pylatexenc.latexwalker import LatexWalker
+    from pylatexenc.latexnodes.parsers import LatexGeneralNodesParser
+
+    class InnerMath(MacroStandardArgsParser):
+        def parse_args(self, w, pos, parsing_state=None):
+            r = MacroStandardArgsParser.parse_args(self, w, pos, parsing_state=parsing_state)
+            return r[0], r[1], r[2], {
+                'inner_parsing_state': parsing_state.sub_context(in_math_mode=True)}
+
+    class AfterMath(MacroStandardArgsParser):
+        def parse_args(self, w, pos, parsing_state=None):
+            r = MacroStandardArgsParser.parse_args(self, w, pos, parsing_state=parsing_state)
+            return r[0], r[1], r[2], {
+                'new_parsing_state': parsing_state.sub_context(in_math_mode=True)}
+
+    def db(legacy):
+        d = LatexContextDb()
+        if legacy:
+            d.add_context_category('x', environments=[
+                EnvironmentSpec('zzenv', args_parser=InnerMath('{'))],
+                macros=[MacroSpec('zzsw', args_parser=AfterMath('')), MacroSpec('textbf', '{')])
+        else:
+            d.add_context_category('x', environments=[
+                EnvironmentSpec('zzenv', '{', is_math_mode=True)],
+                macros=[MacroSpec('zzsw', '', make_after_parsing_state_delta=lambda parsed_node,
+                                  **kw: ParsingStateDeltaEnterMathMode()),
+                        MacroSpec('textbf', '{')])
+        d.set_unknown_macro_spec(MacroSpec(''))
+        return d
+
+    def modes(src, legacy):
+        from ..treedump import walk
+        w = LatexWalker(src, latex_context=db(legacy), tolerant_parsing=False)
+        nl, _ = w.parse_content(LatexGeneralNodesParser())
+        return [(kind(n), n.pos, n.pos_end, bool(n.parsing_state.in_math_mode))
+                for n in walk(nl) if kind(n) != 'list']
+    for src in LEGACY_STATE_DOCS:
+        res.case()
+        case = {'what': 'legacy-states', 'src': src}
+        a, b = attempt(lambda: modes(src, True)), attempt(lambda: modes(src, False))
+        if a != b:
+            which = 'inner_parsing_state' if 'zzenv' in src else 'new_parsing_state'
+            res.fail('c16:legacy-args-parser-state-ignored:' + which,
+                     'on %r the legacy arguments parser (4-tuple result) gives %s, the '
+                     'equivalent specification %s' % (src, str(a)[:300], str(b)[:300]), case)
+        res.nontriv(src)
+    res.label('legacy-4-tuple-states')
+
+
 def plan(tier, seed):
     L = 3 if tier == 'quick' else 4
     shards = [('soups', L, k) for k in range(NSHARDS)]
     shards += [('spell', k) for k in range(NSHARDS)]
+    shards += [('legacy-states',)]
     return {'shards': shards, 'bounds': {'soup_len': L, 'alphabet': len(ALPHA),
                                          'argspecs': len(ARGSPECS)},
             'required_classes': ['spellings:macro', 'spellings:env',
@@ -491,10 +569,14 @@ def plan(tier, seed):
                                  'both-succeed:get_latex_nodes(stop_upon_end_environment)',
                                  'both-succeed:get_latex_nodes(stop_upon_closing_mathmode=$)',
                                  'both-succeed:get_latex_environment',
-                                 'both-succeed:get_latex_braced_group([)']}
+                                 'both-succeed:get_latex_braced_group([)',
+                                 'legacy-4-tuple-states']}
 
 
 def run_shard(shard, res):
+    if shard[0] == 'legacy-states':
+        check_legacy_states(res)
+        return
     if shard[0] == 'soups':
         _, L, k = shard
         for toks in soups.enum_tokens(ALPHA, L, k, NSHARDS):
@@ -517,7 +599,9 @@ def run_shard(shard, res):
 
 def check_case(case, res):
     w = case['what']
-    if w == 'spelling':
+    if w == 'legacy-states':
+        check_legacy_states(res)
+    elif w == 'spelling':
         check_spellings(case['argspec'], res, env=case.get('env', False))
     elif w == 'nodes':
         check_nodes_variants(case['s'], case['pos'], res)
